@@ -170,6 +170,12 @@ Theorem C18_total_parse_partial : forall b58 bech32 int10 int16 compile hmac512 
 Proof. exact parse_any_partial. Qed.
 Print Assumptions C18_total_parse_partial.
 
+(* non-vacuity of the hypotheses on the oracles: a constant generator point and a 64-byte constant satisfy them *)
+Example C18_oracle_hypotheses_satisfiable :
+  (forall k, valid_exponent k = true -> on_curve ((fun _ : Z => (curve_gx, curve_gy)) k) = true) /\
+  (forall m : bytes, length ((fun _ : bytes => repeatb x00 64) m) = 64%nat).
+Proof. split; intros; vm_compute; reflexivity. Qed.
+
 (* non-vacuity of the exclusions: ordinary texts satisfy them *)
 Example C18_exclusions_satisfiable :
   seed_surrogate (text_of_string "P:correct horse") = false /\ seed_well_formed (text_of_string "1abc") = false /\
@@ -208,6 +214,12 @@ Theorem C18_out_of_range_hd_refused : forall mulG modsqrt pre kind d, length d =
   (slice 45 46 d <> [x00] -> curve_p <= from_bytes (skipn 46 d) -> hd_of_payload mulG modsqrt pre kind d = Ret None).
 Proof. exact hd_out_of_range. Qed.
 Print Assumptions C18_out_of_range_hd_refused.
+
+(* a SEC text (hex of b) whose x coordinate is >= p is refused *)
+Theorem C18_out_of_range_sec_refused : forall modsqrt net s b,
+  h2b s = Some b -> curve_p <= from_bytes (slice 1 33 b) -> sec modsqrt net s = Ret None.
+Proof. exact sec_bad_x. Qed.
+Print Assumptions C18_out_of_range_sec_refused.
 
 Theorem C18_wrong_length_refused_segwit : forall net ver len mk hrp version data is_m,
   length data <> len -> segwit_of_decoded net ver len mk (hrp, version, data, is_m) = Ret None.
@@ -250,6 +262,11 @@ Theorem C18_reserialize_text : forall b58 b58enc, (forall d, b58 (b58enc d) = So
 Proof. exact text_reserialize. Qed.
 Print Assumptions C18_reserialize_text.
 
+(* the codec hypothesis is satisfiable (bytes <-> code points) *)
+Example C18_codec_hypothesis_satisfiable :
+  forall d : bytes, (fun t : text => Some (map n2b t)) ((fun d : bytes => map b2n d) d) = Some d.
+Proof. intros d. cbv beta. f_equal. rewrite map_map. rewrite <- (map_id d) at 2. apply map_ext. intros b. apply n2b_b2n. Qed.
+
 (* the hypothesis hd_prefixes_ok holds for every extended-key kind a table network defines *)
 Theorem C18_table_hd_prefixes : forall net kind p, In net table_cfgs -> n_hd_prv net kind = Some p -> hd_prefixes_ok net kind.
 Proof. exact table_hd_prefixes_ok. Qed.
@@ -291,6 +308,13 @@ Definition C18_public_pair_in_range_statement : Prop :=
 Theorem C18_refuted_public_pair_in_range : ~ C18_public_pair_in_range_statement.
 Proof. exact public_pair_not_in_range. Qed.
 Print Assumptions C18_refuted_public_pair_in_range.
+
+(* what holds: keys returned by sec() DO have coordinates in [0, p) (pow(a, e, p) returns residues) *)
+Theorem C18_sec_in_range_partial : forall modsqrt net s pt c,
+  (forall a, 0 <= modsqrt a < curve_p) ->
+  sec modsqrt net s = Ret (Some (OKey (Pub pt) c)) -> 0 <= fst pt < curve_p /\ 0 <= snd pt < curve_p.
+Proof. exact sec_in_range. Qed.
+Print Assumptions C18_sec_in_range_partial.
 
 (* ... for x >= 2^256 the returned key's as_text() raises OverflowError; electrum_pub accepts x = p+1 as well *)
 Theorem C18_unreduced_witnesses :
